@@ -52,6 +52,8 @@ def collide(x, how):
     to 6 significant digits (``%g``) or in float32, values with the same CPython ``hash()`` (x * 2**+-61), the same
     rounding to 3 decimals or the same integer part. Pure function; ``how`` is drawn from COLLIDERS by Hypothesis."""
     x = float(x)
+    if not math.isfinite(x) or abs(x) > 1e15:
+        return x
     if how == "ulp+":
         y = float(np.nextafter(x, np.inf))
     elif how == "ulp-":
@@ -88,9 +90,12 @@ def big_size(lo, hi):
         e, off = args
         return int(min(hi, max(lo, 2 ** e + off)))
     e_lo, e_hi = max(1, math.ceil(math.log2(lo))), math.floor(math.log2(hi))
+    l_lo, l_hi = math.log2(lo), math.log2(hi)
+    # sampled_from is uniform (st.floats / st.integers favour their bounds)
     return st.one_of(
-        floats(math.log2(lo), math.log2(hi)).map(lambda e: int(round(2.0 ** e))),
-        st.tuples(st.integers(e_lo, max(e_lo, e_hi)), st.sampled_from([-2, -1, 0, 1, 2, 3])).map(near_pow2),
+        st.tuples(st.sampled_from(range(97)), st.sampled_from(range(13))).map(
+            lambda kj: int(min(hi, max(lo, round(2.0 ** (l_lo + (l_hi - l_lo) * kj[0] / 96.0)) + kj[1])))),
+        st.tuples(st.sampled_from(range(e_lo, max(e_lo, e_hi) + 1)), st.sampled_from([-2, -1, 0, 1, 2, 3])).map(near_pow2),
     )
 
 
